@@ -334,10 +334,26 @@ class Interp:
                 if name in c.assigns:
                     ctx.note_read(("class", c.qualname, name))
                     return self.eval(ctx, c.assigns[name], Env(module=c.module, defcls=c))
+        r = self.ext_base_attr(ctx, obj, name, obj.cls.external_bases())
+        if r is not None:
+            return r
         ga = obj.cls.find_method("__getattr__")
         if ga is not None:
             return self.call_function(ctx, ga, [obj, VStr(name)], {})
         raise PyRaise(VExc("AttributeError", f"{obj.cls.name} object has no attribute {name}"))
+
+    def ext_base_attr(self, ctx, obj, name, exts):
+        """attribute provided by a base class whose source is not extracted (torch.nn.Module,
+        torch.distributions....): looked up in the op-table as '<base>.<name>'"""
+        for ext in exts:
+            key = f"{ext}.{name}"
+            if key in self.optable:
+                self.optable_log.add(key)
+                fn = self.optable[key]
+                if getattr(fn, "is_property", False):
+                    return fn(self, ctx, [obj], {})
+                return VBuiltin(key, lambda it, ctx, a, k, fn=fn: fn(it, ctx, [obj] + list(a), k))
+        return None
 
     def obj_setattr(self, ctx, obj, name, v):
         st = obj.cls.find_setter(name)
@@ -361,10 +377,28 @@ class Interp:
     def super_getattr(self, ctx, sup, name):
         selfv = sup.selfv
         cls = selfv.cls if isinstance(selfv, VObj) else selfv.info
-        fi = cls.find_method(name, after=sup.defcls)
+        if isinstance(sup.defcls, str):
+            m = cls.mro()
+            names = [c if isinstance(c, str) else c.qualname for c in m]
+            pos = names.index(sup.defcls) if sup.defcls in names else -1
+            rest = m[pos + 1:]
+            fi = None
+            for c in rest:
+                if isinstance(c, ClassInfo) and name in c.methods:
+                    fi = c.methods[name]
+                    break
+            exts = [c for c in rest if isinstance(c, str)]
+        else:
+            fi = cls.find_method(name, after=sup.defcls)
+            m = cls.mro()
+            exts = [c for c in m[m.index(sup.defcls) + 1:] if isinstance(c, str)]
         if fi is None:
+            if isinstance(selfv, VObj):
+                r = self.ext_base_attr(ctx, selfv, name, exts)
+                if r is not None:
+                    return r
             # external base: optable may know "<ext>.<name>"
-            for ext in cls.external_bases():
+            for ext in exts:
                 key = f"{ext}.{name}"
                 if key in self.optable:
                     self.optable_log.add(key)
@@ -655,7 +689,7 @@ class Interp:
             env.set(target.id, v)
         elif isinstance(target, ast.Attribute):
             o = self.eval(ctx, target.value, env)
-            o.py_setattr(self, ctx, target.attr, v)
+            o.py_setattr(self, ctx, self.mangle(target.attr, env), v)
         elif isinstance(target, (ast.Tuple, ast.List)):
             items = self.iterate(ctx, v)
             stars = [i for i, e in enumerate(target.elts) if isinstance(e, ast.Starred)]
@@ -881,9 +915,15 @@ class Interp:
                 d.d[VDict.key(self.eval(ctx, k, env))] = self.eval(ctx, v, env)
         return d
 
+    @staticmethod
+    def mangle(attr, env):
+        if attr.startswith("__") and not attr.endswith("__") and env.defcls is not None:
+            return "_" + env.defcls.name.lstrip("_") + attr
+        return attr
+
     def e_Attribute(self, ctx, node, env):
         o = self.eval(ctx, node.value, env)
-        return o.py_getattr(self, ctx, node.attr)
+        return o.py_getattr(self, ctx, self.mangle(node.attr, env))
 
     def e_Subscript(self, ctx, node, env):
         o = self.eval(ctx, node.value, env)
@@ -997,7 +1037,7 @@ class Interp:
             if node.args:
                 c = self.eval(ctx, node.args[0], env)
                 s = self.eval(ctx, node.args[1], env)
-                return VSuper(c.info, s)
+                return VSuper(c.info if isinstance(c, VClass) else c.name, s)
             fn_env = env
             while fn_env is not None and fn_env.func is None:
                 fn_env = fn_env.parent
